@@ -285,6 +285,18 @@ theorem v2_environmental_score_negative_example : (parse2 v2NegativeWitness).bin
 theorem v4_lookup_matches_published : v4MacrovectorScore = v4LookupPublished :=
   v4_table_ok
 
+/-- Tie A, every cell: the depth table `scoreData.eqDepth` extracted from the
+    current source is the reference calculator's (maxSeverity + 1 per
+    equivalence class and level; the EQ3 row is poisoned, the joint EQ3+6 row
+    comes last and its inconsistent combination (2,0) is poisoned). This also
+    fixes the cells of the lowest level of every class, which no score can
+    observe (their maximal scoring difference is NaN, so the mean skips them):
+    nothing else would notice a change there -/
+theorem v4_depth_table_matches_published :
+    v4EqDepth = [[some 1, some 4, some 5], [some 1, some 2], [none, none, none],
+      [some 6, some 5, some 4], [some 1, some 1, some 1],
+      [some 7, some 6, some 8, some 8, none, some 10]] := by decide
+
 /-- its keys are exactly the consistent macrovectors — levels EQ1 ≤ 2, EQ2 ≤ 1,
     EQ3 ≤ 2, EQ4 ≤ 2, EQ5 ≤ 2, EQ6 ≤ 1, and EQ3 = 2 only with EQ6 = 1 (270 of
     324) — and every score is in 0.1 … 10.0 -/
